@@ -177,7 +177,13 @@ func (c *regexpSimplifyChecker) walk(e syntax.Expr) {
 			c.score++
 		case "{0}":
 			// Maybe {0} should be reported by another check, regexpLint?
-			c.score++
+			if c.hasCapture(e.Args[0]) {
+				// Dropping the operand would renumber the capture groups.
+				c.walk(e.Args[0])
+				out.WriteString(rep)
+			} else {
+				c.score++
+			}
 		case "{1}":
 			c.walk(e.Args[0])
 			c.score++
@@ -247,6 +253,18 @@ func (c *regexpSimplifyChecker) walk(e syntax.Expr) {
 	default:
 		out.WriteString(e.Value)
 	}
+}
+
+func (c *regexpSimplifyChecker) hasCapture(e syntax.Expr) bool {
+	if e.Op == syntax.OpCapture || e.Op == syntax.OpNamedCapture {
+		return true
+	}
+	for _, arg := range e.Args {
+		if c.hasCapture(arg) {
+			return true
+		}
+	}
+	return false
 }
 
 func (c *regexpSimplifyChecker) walkGroup(g syntax.Expr) {
